@@ -10,6 +10,10 @@ pub const ATOMS: &[&str] = &[
     "a", "b", "Z", "_", "0", "9", "x1", "$", "#", "[", "]", "(", ")", "{", "}", "<", ">", ":", ",", "/", " ", "\n", "\t", "\r", "\r\n",
     "\u{a0}", "\u{2003}", "\u{2028}", "\u{85}", "é", "中", "𝄞", "start", "struct", "enum", "terminal", "//", "#[", "::", "$x", "$start",
     "$_", "$Tok", "Foo", "\"", "'", "-", ".", "!", "=", ";", "\\", "\u{feff}", "\0", "#[a]", "#[(", ")]",
+    // Unicode classes that ASCII-only rules must reject: non-ASCII digits / numerics / letters / marks /
+    // zero-width characters; and every kind of Unicode White_Space, which must separate tokens
+    "²", "½", "٣", "１", "Ⅷ", "ß", "Ω", "ａ", "İ", "\u{301}", "\u{200d}", "\u{200b}", "\u{180e}", "\u{1c}",
+    "\u{b}", "\u{c}", "\u{1680}", "\u{2000}", "\u{200a}", "\u{2029}", "\u{202f}", "\u{205f}", "\u{3000}",
 ];
 
 pub fn soup(rng: &mut Rng, max_atoms: usize) -> String {
